@@ -8,7 +8,7 @@ EXPLANATION = ("R-ORDER enqueue-then-unlock-then-park in Condvar::wait_impl, R-P
                "re-lock inside a cancel-disabled region, R-SIB forwarding handshake for a waiter that times out / is cancelled, "
                "exactly one mutex release on the Canceled arm of wait/wait_timeout; Barrier leader/follower shape; WaitGroup "
                "count updates under the lock and notify_all on zero")
-EXPLANATION_2 = ('Condvar front-ends: Cancel panic only (and always) for a Canceled wait after releasing the mutex, wait_while waits only while the condition holds and returns only when it is false, the re-lock guard is never dropped; WaitGroup::wait leaves before waiting; Mutex cancel arm')
+EXPLANATION_2 = ('Condvar front-ends: Cancel panic only (and always) for a Canceled wait after releasing the mutex, wait_while waits only while the condition holds and returns only when it is false, the re-lock guard is never dropped; WaitGroup::wait leaves before waiting; Mutex cancel arm; notify_one does not recurse over abandoned waiters (F28, known finding)')
 NOT_DECIDED = "which waiter is woken; spurious wake-ups; generation overflow; liveness"
 CONFIGS_QUICK = ["default"]
 
